@@ -1163,7 +1163,16 @@ fire('c17-sections-uncomment', 'C17',
 fire('c17-sanitizer-returns-empty', 'C17',
      [(GEN, "    if not description:\n        return '#'", "    if not description:\n        return ''")], 'C17.SANITIZER')
 fire('c17-json-shape', 'C17',
-     [(GEN, "    return ('\"%(name)s\": \"%(check_str)s\"' %\n            {'name': default.name,\n             'check_str': default.check_str})", "    return ('\"%(name)s\": \"%(check_str)s\"' %\n            {'name': default.name,\n             'check_str': default.description})")], 'C17.JSON')
+     [(GEN, "    return ('%(name)s: %(check_str)s' %\n            {'name': jsonutils.dumps(default.name),\n             'check_str': jsonutils.dumps(default.check_str)})", "    return ('%(name)s: %(check_str)s' %\n            {'name': jsonutils.dumps(default.name),\n             'check_str': jsonutils.dumps(default.description)})")], 'C17.JSON')
+# F16 reverted: the check string pasted between double quotes
+fire('c17-revert-f16', 'C17',
+     [(GEN, "    return ('%(name)s: %(check_str)s' %\n            {'name': jsonutils.dumps(default.name),\n             'check_str': jsonutils.dumps(default.check_str)})", "    return ('\"%(name)s\": \"%(check_str)s\"' %\n            {'name': default.name,\n             'check_str': default.check_str})")], 'C17.JSON')
+# F15 reverted: the extra rule name pasted between double quotes
+fire('c18-revert-f15', 'C18',
+     [(GEN, "        rule_text = ('%(name)s: %(check_str)s\\n' %\n                     {'name': _quote_check_str(file_rule),", "        rule_text = ('\"%(name)s\": %(check_str)s\\n' %\n                     {'name': file_rule,")], 'C18.QUOTED-HOLE')
+# a re-spelling helper that drops what it does not like is not a re-spelling
+fire('c18-respell-drops', 'C18',
+     [(GEN, "        ('\\\\u%04x' if ord(c) < 0x10000 else '\\\\U%08x') % ord(c)", "        ''")], 'C18.SERIALIZED')
 silent('c17-no-warn', 'C17',
        [(GEN, """                warnings.warn(
                     'Invalid policy description: literal blocks must be '
@@ -1181,8 +1190,8 @@ fire('c18-revert-f6-yaml', 'C18',
      [(GEN, "    text = ('\"%(name)s\": %(check_str)s\\n' %\n            {'name': default.name,\n             'check_str': _quote_check_str(default.check_str)})",
        "    text = ('\"%(name)s\": \"%(check_str)s\"\\n' %\n            {'name': default.name,\n             'check_str': default.check_str})")], 'C18.QUOTED-HOLE')
 fire('c18-revert-f6-extra', 'C18',
-     [(GEN, "        rule_text = ('\"%(name)s\": %(check_str)s\\n' %\n                     {'name': file_rule,\n                      'check_str': _quote_check_str(check_str)})",
-       "        rule_text = ('\"%(name)s\": \"%(check_str)s\"\\n' %\n                     {'name': file_rule,\n                      'check_str': check_str})")], 'C18.QUOTED-HOLE')
+     [(GEN, "        rule_text = ('%(name)s: %(check_str)s\\n' %\n                     {'name': _quote_check_str(file_rule),\n                      'check_str': _quote_check_str(check_str)})",
+       "        rule_text = ('%(name)s: \"%(check_str)s\"\\n' %\n                     {'name': _quote_check_str(file_rule),\n                      'check_str': check_str})")], 'C18.QUOTED-HOLE')
 fire('c18-revert-f7', 'C18',
      [(GEN, "                policies.pop(rule_default.deprecated_rule.name, None)\n                old_value = old_policies[rule_default.deprecated_rule.name]",
        "                old_value = policies.pop(\n                    rule_default.deprecated_rule.name)")], 'C18.POP-GUARD')
@@ -1203,7 +1212,7 @@ fire('c18-convert-pop-unguarded', 'C18',
 fire('c18-upgrade-keeps-old', 'C18',
      [(GEN, "                policies.pop(rule_default.deprecated_rule.name, None)\n", "")], 'C18.UPGRADE')
 fire('c18-extra-rules-commented', 'C18',
-     [(GEN, "        rule_text = ('\"%(name)s\": %(check_str)s\\n' %\n                     {'name': file_rule,", "        rule_text = ('#\"%(name)s\": %(check_str)s\\n' %\n                     {'name': file_rule,")], 'C18.KEEP-OVERRIDE')
+     [(GEN, "        rule_text = ('%(name)s: %(check_str)s\\n' %\n                     {'name': _quote_check_str(file_rule),", "        rule_text = ('#%(name)s: %(check_str)s\\n' %\n                     {'name': _quote_check_str(file_rule),")], 'C18.KEEP-OVERRIDE')
 silent('c18-convert-no-exit-log', 'C18',
        [(GEN, "    if file_policies:\n        yaml_format_rules.append(extra_rules_text)\n", "    yaml_format_rules.append(extra_rules_text)\n")])
 
